@@ -21,7 +21,7 @@ from ..utils import defaultdict2
 from .config import DiffConfig
 from .generic import (
     diff, diff_sequence_multilevel, compare_strings_approximate,
-    diff_string_lines, compare_strict,
+    diff_string_lines, compare_strict, strict_equal,
 )
 
 __all__ = ["diff_notebooks"]
@@ -422,11 +422,14 @@ def add_mime_diff(key, avalue, bvalue, diffbuilder):
     mimetype = key.lower()
     if isinstance(avalue, str) and isinstance(bvalue, str) and avalue == bvalue:
         return
-    if any(mimetype.startswith(tm) for tm in _split_mimes):
+    if (any(mimetype.startswith(tm) for tm in _split_mimes) and
+            type(avalue) is type(bvalue) and
+            isinstance(avalue, (str, list, dict))):
         dd = diff(avalue, bvalue)
         if dd:
             diffbuilder.patch(key, dd)
-    elif not compare_strict(avalue, bvalue):
+    elif not strict_equal(avalue, bvalue):
+        # Also scalar JSON payloads, or payloads whose type changed
         diffbuilder.replace(key, bvalue)
 
 
